@@ -10,6 +10,8 @@ type c07Err struct {
 }
 
 type c07Ref struct {
+	lit    int  // literal braces open inside the current operand
+	sawLit bool // the template has a literal brace inside an operand
 	m      func(string) (string, bool)
 	errs   []c07Err
 	unspec bool
@@ -27,11 +29,20 @@ func (r *c07Ref) eval(s string, i int, top bool) (string, int, bool) {
 	for i < len(s) {
 		c := s[i]
 		if c == '}' && !top {
+			if r.lit > 0 {
+				// closes a literal '{' of this operand
+				r.lit--
+				out += "}"
+				i++
+				continue
+			}
 			return out, i + 1, true
 		}
 		if c == '{' && !top {
-			// a literal '{' inside a braced default/replacement/message: unspecified
-			r.unspec = true
+			// a literal '{' inside a braced default/replacement/message (typically after an escaped `$$`): braces
+			// pair up, the group is copied verbatim
+			r.lit++
+			r.sawLit = true
 		}
 		if c != '$' {
 			out += s[i : i+1]
@@ -105,6 +116,10 @@ func (r *c07Ref) braced(s string, i int) (string, int) {
 	argErrs := r.errs
 	r.errs = saved
 	if !closed {
+		if r.sawLit {
+			// literal braces that do not pair up: which brace closes the substitution is not defined
+			r.unspec = true
+		}
 		r.errs = append(r.errs, c07Err{kind: 1})
 		return "", len(s)
 	}
@@ -136,12 +151,10 @@ func (r *c07Ref) braced(s string, i int) (string, int) {
 		}
 	}
 	if len(argErrs) > 0 {
-		if used {
-			r.errs = append(r.errs, argErrs...)
-		} else {
-			// an error inside an operand the operator does not use: unspecified
-			r.unspec = true
-		}
+		// operands are interpolated whether or not the operator ends up using them: "a malformed substitution is
+		// an error", and a required variable missing inside an operand is reported as well
+		_ = used
+		r.errs = append(r.errs, argErrs...)
 	}
 	return res, end
 }
@@ -307,7 +320,9 @@ func c07Check(tmpl string) {
 // VerifC07Tokens: templates assembled from the grammar's own vocabulary (and a non-ASCII character), checked
 // against the reference evaluator like every other template.
 func VerifC07Tokens() {
-	dict := []string{"$", "{", "}", "${", ":-", "-", ":+", "+", ":?", "?", ":", "A", "_", "x", "$$", " ", "é", "${A", "$A"}
+	// single symbols, and a few two-symbol phrases so that nested and escaped shapes are within three tokens
+	dict := []string{"$", "{", "}", "${", ":-", "-", ":+", "+", ":?", "?", ":", "A", "_", "x", "$$", " ", "é", "${A", "$A",
+		"${A:-", "${_:-", "${A:?", "${_+", "$${A}", "$$A}", "$${", "} ", "}x"}
 	n := 1 + vrtChoice("tokens", vrtParam("TOK", 3))
 	tmpl := ""
 	for k := 0; k < n; k++ {
